@@ -74,6 +74,55 @@ var items = []*item{
 		[]string{`(f3 1)`, `(f3 -1 :k 5)`}},
 }
 
+// redefItems: every item defines something and then defines it AGAIN in
+// another way before the snapshot is taken; the snapshot must save, and the
+// reloaded process must show, the LATEST definition (arity, body, value,
+// documentation, method set, slot set).
+var redefItems = []*item{
+	{"redef-defun", []string{
+		`(defun rf1 (w) "Doc of rf1 one." (* w w))`,
+		`(defun rf1 (w h &optional (d 1)) "Doc of rf1 two." (list (* w h) d))`},
+		[]string{`(rf1 2 3)`, `(rf1 2 3 4)`, `(rf1 2)`, `(documentation 'rf1 'function)`}},
+	{"redef-defmacro", []string{
+		`(defmacro rm1 (a) (list 'list a 1))`,
+		`(defmacro rm1 (a b) "Doc of rm1 two." (list 'list b a 2))`},
+		[]string{`(rm1 1 2)`, `(rm1 (no-such-function-zz) 2)`, `(rm1 1)`, `(let ((q 4)) (rm1 q (+ q 1)))`}},
+	{"redef-defvar-setq", []string{
+		`(defvar *rv* 1 "Doc of rv.")`,
+		`(setq *rv* "now a string")`,
+		`(defvar *rv* 99)`},
+		[]string{`*rv*`, `(documentation '*rv* 'variable)`}},
+	{"redef-defparameter", []string{
+		`(defparameter *rp* '(1 2) "Doc of rp one.")`,
+		`(defparameter *rp* 2.5 "Doc of rp two.")`},
+		[]string{`*rp*`, `(documentation '*rp* 'variable)`}},
+	{"redef-generic", []string{
+		`(defgeneric rg1 (a b))`,
+		`(defmethod rg1 ((a fixnum) (b t)) (list 'fixnum-one a b))`,
+		`(defmethod rg1 ((a string) (b t)) (list 'string a b))`,
+		`(defmethod rg1 ((a double-float) (b t)) (list 'double a b))`,
+		`(defmethod rg1 ((a fixnum) (b t)) (list 'fixnum-two b a))`,
+		`(remove-method (function rg1) (find-method (function rg1) nil (list (find-class 'string) (find-class 't))))`},
+		[]string{`(rg1 1 2)`, `(rg1 "s" 2)`, `(rg1 1.5 2)`}},
+	{"redef-defclass", []string{
+		`(defclass rc1 () ((a :initform 1 :initarg :a)))`,
+		`(defclass rc1 () ((a :initform 10 :initarg :a) (b :initform "bee" :initarg :b)))`},
+		[]string{`(slot-value (make-instance 'rc1) 'a)`, `(slot-value (make-instance 'rc1) 'b)`, `(slot-value (make-instance 'rc1 :b 5) 'b)`}},
+	{"redef-flavor-method", []string{
+		`(defflavor rfl ((a 3)) () :gettable-instance-variables)`,
+		`(defmethod (rfl :val) () (+ a 1))`,
+		`(defmethod (rfl :val) (n) (* a n))`},
+		[]string{`(send (make-instance 'rfl) :val 5)`, `(send (make-instance 'rfl) :val)`, `(send (make-instance 'rfl) :a)`}},
+}
+
+var redefMenu []string
+
+func init() {
+	for _, it := range redefItems {
+		redefMenu = append(redefMenu, it.id)
+	}
+}
+
 // forwardRef is a session of its own (not part of the subsets: the snapshot
 // of a session holding it faults, which would mask everything else).
 var forwardRef = &item{"forward-ref", []string{`(defun fw (x) (+ (fz x) 1))`}, []string{`(fw 1)`}}
@@ -99,6 +148,11 @@ var menu []string
 
 func itemByID(id string) *item {
 	for _, it := range items {
+		if it.id == id {
+			return it
+		}
+	}
+	for _, it := range redefItems {
 		if it.id == id {
 			return it
 		}
@@ -453,7 +507,8 @@ var userNames = map[string]bool{}
 
 func init() {
 	for _, n := range []string{"*va*", "*pb*", "+kc+", "*vs*", "*vk*", "f1", "f2", "f9", "fw", "m1", "fl1", "cl1", "g1", "pk1", "pv", "pf",
-		"flz", "fla", "fm1", "fm2", "fm3", "fu1", "fu2", "fu3", "*vi*", "*vh*", "*vv*", "*vstr*", "f3"} {
+		"flz", "fla", "fm1", "fm2", "fm3", "fu1", "fu2", "fu3", "*vi*", "*vh*", "*vv*", "*vstr*", "f3",
+		"rf1", "rm1", "*rv*", "*rp*", "rg1", "rc1", "rfl"} {
 		userNames[n] = true
 	}
 }
@@ -816,6 +871,7 @@ func execSnap(spec string, res *engine.Result) {
 		res.Hit("snap-fixed-point-holds")
 	}
 	// the session's definitions must be present in the first snapshot
+	absentSeen := map[string]bool{}
 	for _, it := range its {
 		for _, src := range it.src {
 			key := formKey(src)
@@ -831,7 +887,8 @@ func execSnap(spec string, res *engine.Result) {
 				}
 			}
 			res.Hit("snap-definitions-looked-for")
-			if !found {
+			if !found && !absentSeen[it.id+key] {
+				absentSeen[it.id+key] = true
 				res.Fail(fmt.Sprintf("snap definition-absent item=%s form=%s", it.id, key),
 					fmt.Sprintf("session [%s]: the snapshot text has no form that defines %s (session form %s)", session, want, src))
 			}
@@ -859,7 +916,11 @@ func definedName(src string) string {
 	if len(parts) != 2 {
 		return ""
 	}
-	return parts[1]
+	switch parts[0] {
+	case "defvar", "defparameter", "defconstant", "setq", "defun", "defmacro", "defflavor", "defclass", "defgeneric", "defpackage", "defmethod":
+		return parts[1]
+	}
+	return "" // not a defining form (remove-method ...)
 }
 
 // mentionsDefinition: does snapshot form f define the thing the session form
